@@ -29,6 +29,7 @@ SPECS = [
     # a 0..360 longitude grid across the antimeridian, and large (projected, metre-like) coordinates: written as they are
     {'conv': 'cf1d', 'ny': 2, 'nx': 5, 'origin': [176.5, -20.0], 'step': [2.0, 1.0]},
     {'conv': 'cf1d', 'ny': 2, 'nx': 3, 'origin': [402500.0, 6215000.0], 'step': [250.0, 250.0]},
+    {'conv': 'cf2d', 'ny': 3, 'nx': 4, 'bounds': 'vars', 'holes': [[0, 0]], 'repeat_corner': [1, 2]},
 ]
 FORMATS = ['geojson', 'shapefile', 'wkt', 'wkb']
 
@@ -58,7 +59,15 @@ def same_ring(a, b):
 
 def test(inp):
     spec, fmt = inp['spec'], inp['format']
-    ds = datasets.build(spec)
+    ds = datasets.build({k: v for k, v in spec.items() if k != 'repeat_corner'})
+    if spec.get('repeat_corner'):
+        # a triangular cell stored in four-corner bounds by repeating a corner (CF practice): a valid polygon with a repeated vertex,
+        # written to every format vertex for vertex
+        j, i = spec['repeat_corner']
+        for name in ('lon_bnds', 'lat_bnds'):
+            v = ds[name].values.copy()
+            v[j, i, 3] = v[j, i, 2]
+            ds[name] = (ds[name].dims, v, ds[name].attrs)
     with warnings.catch_warnings():
         warnings.simplefilter('ignore')
         polys = ds.ems.polygons
